@@ -249,6 +249,18 @@ var extraInputFns = []struct {
 
 // sectParam: index of a trailing int parameter named sect, or -1.
 func sectParam(fn *ssa.Function) int {
+	// a ...BySect accessor takes the school as its last parameter, whatever it is called
+	if strings.Contains(fn.Name(), "BySect") && len(fn.Params) > 0 {
+		if i := len(fn.Params) - 1; isIntType(fn.Params[i].Type()) && (fn.Signature.Recv() == nil || i > 0) {
+			return i
+		}
+	}
+	if fname(fn) == "calendar.NewYun" && len(fn.Params) == 3 {
+		return 2
+	}
+	if fname(fn) == "calendar.(*Yun).computeStart" && len(fn.Params) == 2 {
+		return 1
+	}
 	for i, p := range fn.Params {
 		if p.Name() == "sect" && isIntType(p.Type()) {
 			return i
